@@ -19,7 +19,7 @@ open RaftModel RaftModel.Driver
 
 structure DState where
   inf : Option Inflights := none
-  p : Option RaftModel.P.PSys := none
+  p : Option RaftModel.P.DSys := none
   cc : Option Tracker := none
   rl : Option RaftLog := none
   ms : Option MemStorage := none
